@@ -130,10 +130,25 @@ package soyjs
 
 //@ func (*state).visitTemplate
 //@   like jsEmitter
+// C16: print directives apply left to right and autoescaping last: in the
+// generated expression the FIRST directive is the innermost call (opened last,
+// closed first, its arguments right behind the value), escapeHtml - appended
+// when escaping - the outermost.
 //@ func (*state).visitPrint
 //@   like jsEmitter
+//@   ghost opened int = 0
+//@   ghost closed int = 0
+//@   at call (*state).js#1 set opened = opened + 1
+//@   at call (*state).walk#0 assert[the-value-sits-inside-one-call-per-directive;C16] opened == len(directives)
+//@   at call (*state).js#5 set closed = closed + 1
+//@   at call (*state).js#2 assert[every-call-is-closed;C16] closed == opened
+//@   note the ORDER of the nesting (first directive innermost) is not pinned by a clause: the index arithmetic of the opening loop is outside what hooks can name; it was wrong (fixed, see known_findings) and is exercised by the demonstration recorded there
 //@   loop 0
 //@     invariant[filtered-list-is-a-new-slice;C09,C13] fresh(directives)
+//@   loop 1
+//@     invariant[one-call-opened-per-directive-so-far;C16] opened == rangeindex + 1 && opened <= len(directives)
+//@   loop 2
+//@     invariant[one-call-closed-per-directive-so-far;C16] closed == rangeindex + 1 && closed <= len(directives) && opened == len(directives)
 //@ func (*state).visitFunction
 //@   like jsEmitter
 //@ func (*state).visitCall
